@@ -3,7 +3,7 @@
 From Coq Require Import List Bool Arith String.
 Import ListNotations.
 From Lime Require Import Hs.Types Hs.Server Hs.Monitor Hs.ServerFacts Hs.MonitorFacts Props.HsCommon.
-From Lime Require Import Hs.Client Hs.ClientEnc Hs.ClientEncFacts.
+From Lime Require Import Hs.Client Hs.ClientEnc Hs.ClientEncFacts Hs.Pipelined.
 Open Scope string_scope.
 Open Scope list_scope.
 
@@ -42,3 +42,32 @@ Example C09_example :
                         cs_scheme := ""; cs_cred := None; cs_from := 0 |} in
   In (AuthCall 1 "plain" (Some 1) "tls") (rr_trace (handle_channel s_repaired conf w_oracle [w_new ""; choice; w_auth])).
 Proof. vm_compute. tauto. Qed.
+
+(* Pipelined peers (Hs/Pipelined.v): an envelope written in the same segment as an input after which the server
+   switched the encryption was received in clear and is discarded with the old decoder, whatever it is; and
+   whatever the peer glues together, the server's run over what it does get to see obeys every rule above. *)
+Theorem C09_cleartext_behind_a_switch_is_discarded : forall conf o acc i r,
+  switched_after_last conf o acc = true -> effective conf o acc ((true, i) :: r) = effective conf o acc r.
+Proof. exact glued_behind_switch_dropped. Qed.
+Print Assumptions C09_cleartext_behind_a_switch_is_discarded.
+
+Theorem C09_pipelined_runs_accepted : forall conf o (g : list (bool * cin)),
+  let r := handle_channel s_repaired conf o (effective conf o [] g) in
+  accepts conf o (rr_trace r) (rr_handler_ended r) = true /\ rr_outcome r <> Panicked.
+Proof. exact pipelined_accepts. Qed.
+Print Assumptions C09_pipelined_runs_accepted.
+
+(* non-vacuity: credentials of identity 2 glued in clear behind the selection of tls are never looked at;
+   identity 1, presented under tls, is *)
+Example C09_pipelined_example :
+  let conf := {| sc_comp := ["none"]; sc_enc := ["tls"]; sc_schemes := ["plain"]; sc_kind := TTcp true;
+                 sc_tls_ok := true; sc_sid := "SID" |} in
+  let choice := CSes {| cs_id := "SID"; cs_state := SNegotiating; cs_enc := "tls"; cs_comp := "none";
+                        cs_scheme := ""; cs_cred := None; cs_from := 0 |} in
+  let auth n := CSes {| cs_id := "SID"; cs_state := SAuthenticating; cs_enc := ""; cs_comp := "";
+                        cs_scheme := "plain"; cs_cred := Some n; cs_from := n |} in
+  let o := {| o_auth := fun _ _ _ _ => ARole; o_reg := fun f => RNode f |} in
+  let ins := effective conf o [] [(false, w_new ""); (false, choice); (true, auth 2); (false, auth 1)] in
+  ins = [w_new ""; choice; auth 1] /\
+  In (AuthCall 1 "plain" (Some 1) "tls") (rr_trace (handle_channel s_repaired conf o ins)).
+Proof. vm_compute. split; [reflexivity|tauto]. Qed.
